@@ -66,10 +66,10 @@ class Geometry:
         pixel_horz_size: float | None = None,  # unit: um
         pixel_scale: float | None = None,  # unit: arcsec/pixel
     ):
-        if row <= 0:
+        if not (row > 0):
             raise ValueError("'row' must be strictly greater than 0.")
 
-        if col <= 0:
+        if not (col > 0):
             raise ValueError("'col' must be strictly greater than 0.")
 
         if total_thickness and not (0.0 <= total_thickness <= 10000.0):
@@ -132,7 +132,7 @@ class Geometry:
     @row.setter
     def row(self, value: int) -> None:
         """Set Number of pixel rows."""
-        if value <= 0:
+        if not (value > 0):
             raise ValueError("'row' must be strictly greater than 0.")
 
         self._row = value
@@ -145,7 +145,7 @@ class Geometry:
     @col.setter
     def col(self, value: int) -> None:
         """Set Number of pixel columns."""
-        if value <= 0:
+        if not (value > 0):
             raise ValueError("'col' must be strictly greater than 0.")
 
         self._col = value
